@@ -1,8 +1,8 @@
 #!/bin/bash
 # usage: tools/verify_seed.sh <Cnn> <a|b|..> <seed-name>
-# Confirms a sub-agent's seeded change in its scratch worktree /tmp/wt/<Cnn>: demo passes on the clean
-# tree, pinned tests still pass with the change, demo fails with the change.  Then files it under
-# /verif/seeded/<seed-name>/ (patch.diff, demo.py, notes.md, meta.json).
+# Confirms a sub-agent's seeded change in its scratch worktree /tmp/wt/<Cnn>: demo passes on the clean tree, pinned tests
+# still pass with the change, demo fails with the change.  Then files it under /verif/seeded/<seed-name>/ (patch.diff,
+# demo.py unchanged, notes.md, meta.json).  Later re-confirmation on a fresh worktree of /repo's HEAD: tools/run_demo.sh.
 set -u
 ID=$1; V=$2; NAME=$3
 W=/tmp/wt/$ID; S=$W/_out/$V; D=/verif/seeded/$NAME
@@ -15,17 +15,13 @@ git -C $W checkout -q -- .
 echo "$NAME: demo clean=$CLEAN mutated=$MUT tests: $TESTS"
 if [ $CLEAN -ne 0 ] || [ $MUT -eq 0 ] || ! echo "$TESTS" | grep -q "180 passed, 2 errors"; then echo "NOT CONFIRMED"; exit 1; fi
 mkdir -p $D
-cp $S/patch.diff $D/patch.diff
-sed "s#\"/tmp/wt/$ID\"#__import__(\"os\").environ.get(\"PDPY11_TREE\", \"/repo\")#g; s#'/tmp/wt/$ID'#__import__(\"os\").environ.get(\"PDPY11_TREE\", \"/repo\")#g" $S/demo.py > $D/demo.py
-cp $S/notes.md $D/notes.md 2>/dev/null
-# the relocated demo must behave the same
-(cd $W && PDPY11_TREE=$W /venv/bin/python $D/demo.py >/dev/null 2>&1); C2=$?
-git -C $W apply $S/patch.diff; (cd $W && PDPY11_TREE=$W /venv/bin/python $D/demo.py >/dev/null 2>&1); M2=$?; git -C $W checkout -q -- .
-if [ $C2 -ne 0 ] || [ $M2 -eq 0 ]; then echo "relocated demo differs (clean=$C2 mutated=$M2): keeping original paths"; cp $S/demo.py $D/demo.py; fi
+cp $S/patch.diff $D/patch.diff; cp $S/demo.py $D/demo.py; cp $S/notes.md $D/notes.md 2>/dev/null
+HEAD=$(git -C $W log --format=%h -1)
 cat > $D/meta.json <<EOT
-{"name": "$NAME", "property": "$ID", "origin": "independent sub-agent given only the property text and a scratch worktree",
+{"name": "$NAME", "property": "$ID", "wave": 2, "origin": "independent sub-agent given only the property text, the list of first-wave ideas to avoid, and a scratch worktree",
+ "written_against_repo_commit": "$HEAD",
  "confirmed": {"pinned_tests_with_change": "$TESTS", "demo_exit_clean_tree": $CLEAN, "demo_exit_with_change": $MUT,
-               "how": "tools/verify_seed.sh $ID $V $NAME (scratch worktree, change reverted afterwards)"},
+               "how": "tools/verify_seed.sh $ID $V $NAME (the agent's scratch worktree, change reverted afterwards)"},
  "needs_to_manifest": "see notes.md", "detected_by": []}
 EOT
 echo "filed $D"
